@@ -97,6 +97,32 @@ Proof.
   - intros u v e A. apply E' in A. apply (rc_adj g W). tauto.
 Qed.
 
+Theorem remove_normal_mtg_spec (g : xits) : wf g ->
+  gnodes (remove_normal_mtg g) = gnodes g /\
+  (forall u v x, adj (remove_normal_mtg g) u v = Some x <-> adj g u v = Some x /\ snd x <> Some false).
+Proof.
+  intros W. split; [reflexivity|]. intros u v x. unfold adj, remove_normal_mtg. simpl.
+  rewrite (find_edge_filter (fun _ _ y => negb (mtg_is_false y)) (gedges g) (wf_simple W)); [|reflexivity].
+  destruct (find_edge u v (gedges g)) as [y|]; [|split; [discriminate|intros [? _]; discriminate]].
+  unfold mtg_is_false. destruct y as [e [[|]|]]; simpl; split; try discriminate; try (intros [= <-]; split; [reflexivity|discriminate]);
+    try (intros [[= <-] _]; reflexivity); intros [[= <-] H]; exfalso; apply H; reflexivity.
+Qed.
+
+(** extract_subgraph: the induced subgraph on the listed atoms that exist *)
+Theorem extract_subgraph_spec (g : its) (ids : list N) : wf g ->
+  (forall n a, label (extract_subgraph g ids) n = Some a <-> label g n = Some a /\ In n ids) /\
+  (forall u v e, adj (extract_subgraph g ids) u v = Some e <-> adj g u v = Some e /\ In u ids /\ In v ids).
+Proof.
+  intros W. unfold extract_subgraph. split.
+  - intros n a. rewrite label_induced. destruct (LGraph.mem n ids) eqn:M.
+    + apply LGraph.mem_spec in M. tauto.
+    + split; [discriminate|]. intros [_ I]. apply LGraph.mem_spec in I. congruence.
+  - intros u v e. rewrite (adj_induced _ _ _ W).
+    destruct (LGraph.mem u ids) eqn:Mu; destruct (LGraph.mem v ids) eqn:Mv; simpl;
+      try (apply LGraph.mem_spec in Mu); try (apply LGraph.mem_spec in Mv); try tauto;
+      (split; [discriminate|]); intros (_ & Iu & Iv); try (apply LGraph.mem_spec in Iu); try (apply LGraph.mem_spec in Iv); congruence.
+Qed.
+
 (** * extract_k: option handling *)
 Theorem extract_k_z_nonneg (g : its) k : 0 <= k -> extract_k_z g k = extract_k g (Z.to_nat k).
 Proof.
